@@ -643,8 +643,8 @@ func c20Driver(d *core.Driver) int {
 	reps, rounds, sharedRounds := 1, 3, 1
 	combos := [][2]int{{4, 2}, {16, 16}, {32, 8}, {2, 1}}
 	if d.Tier == "thorough" {
-		reps, rounds, sharedRounds = 3, 8, 2
-		combos = [][2]int{{2, 1}, {2, 2}, {4, 2}, {4, 16}, {16, 2}, {16, 16}, {64, 1}, {64, 16}}
+		reps, rounds, sharedRounds = 2, 6, 2
+		combos = [][2]int{{2, 1}, {16, 16}, {4, 2}, {4, 16}, {64, 16}, {16, 2}}
 	}
 	raceBin := filepath.Join(d.Verif, "bin", "vcheck-race"+os.Getenv("VERIF_BINSUF"))
 	work := d.WorkDir
